@@ -10046,6 +10046,10 @@ class Parser:
             privilege_parts.append(self._curr.text.upper())
             self._advance()
 
+        if not privilege_parts:
+            # e.g. "GRANT ON t TO r": exp.var("") would raise a ValueError
+            return None
+
         this = exp.var(" ".join(privilege_parts))
         expressions = (
             self._parse_wrapped_csv(self._parse_column)
